@@ -274,44 +274,40 @@ impl Exp {
                 if exps.is_empty() {
                     return Exp::Max(vec![]);
                 }
+                // every operand is simplified once (twice would double the work
+                // at every level of a nest of blocks)
+                let exps = exps.iter().map(|exp| exp.simplify()).collect::<Vec<_>>();
                 //if they are all numbers, return the max
                 let nums = exps
                     .iter()
-                    .map(|exp| {
-                        let exp = exp.simplify();
-                        if let Exp::Number(value) = exp {
-                            Some(value)
-                        } else {
-                            None
-                        }
+                    .map(|exp| match exp {
+                        Exp::Number(value) => Some(*value),
+                        _ => None,
                     })
                     .collect::<Option<Vec<f64>>>();
                 match nums {
                     Some(nums) => {
                         Exp::Number(nums.iter().cloned().fold(f64::NEG_INFINITY, f64::max))
                     }
-                    None => Exp::Max(exps.iter().map(|exp| exp.simplify()).collect::<Vec<_>>()),
+                    None => Exp::Max(exps),
                 }
             }
             Exp::Min(exps) => {
                 if exps.is_empty() {
                     return Exp::Min(vec![]);
                 }
+                let exps = exps.iter().map(|exp| exp.simplify()).collect::<Vec<_>>();
                 //if they are all numbers, return the min
                 let nums = exps
                     .iter()
-                    .map(|exp| {
-                        let exp = exp.simplify();
-                        if let Exp::Number(value) = exp {
-                            Some(value)
-                        } else {
-                            None
-                        }
+                    .map(|exp| match exp {
+                        Exp::Number(value) => Some(*value),
+                        _ => None,
                     })
                     .collect::<Option<Vec<f64>>>();
                 match nums {
                     Some(nums) => Exp::Number(nums.iter().cloned().fold(f64::INFINITY, f64::min)),
-                    None => Exp::Min(exps.iter().map(|exp| exp.simplify()).collect::<Vec<_>>()),
+                    None => Exp::Min(exps),
                 }
             }
             exp => exp.clone(),
